@@ -213,4 +213,50 @@ theorem drop_warnings (o : GenOpts) (g : List Bytes) (b : Bytes) :
   repeat' split
   all_goals simp
 
+/-- A non-empty open group followed by any number of CONTINUATION packets and a LAST packet whose counts are
+    consecutive: nothing is emitted until the LAST, which emits the whole group as one packet and leaves the APID
+    idle. -/
+theorem open_group_closes (o : GenOpts) (hc : o.combine = true) (g conts : List Bytes) (last : Bytes)
+    (hg : g ≠ []) (hcs : ∀ c ∈ conts, seqFlags c = 0) (hl : seqFlags last = 2)
+    (hcons : consecutiveCounts ((g ++ conts ++ [last]).map seqCount) = true) :
+    autoRun o g (conts ++ [last]) =
+      conts.map (fun _ => (none, [])) ++ [(some (g ++ conts ++ [last]), [])] ∧
+    (conts ++ [last]).foldl (fun st b => (autoStep o st b).1) g = [] := by
+  induction conts generalizing g with
+  | nil =>
+    have hge : g.isEmpty = false := by simpa [List.isEmpty_iff] using hg
+    have hcons' : consecutiveCounts (List.map seqCount g ++ [seqCount last]) = true := by simpa using hcons
+    simp [autoRun, autoStep, hc, hl, hge, hcons', hg]
+  | cons c cs ih =>
+    have hge : g.isEmpty = false := by simpa [List.isEmpty_iff] using hg
+    have hc0 : seqFlags c = 0 := hcs c (by simp)
+    have hstep : autoStep o g c = (g ++ [c], none, []) := by simp [autoStep, hc, hc0, hge]
+    have hih := ih (g ++ [c]) (by simp) (fun x hx => hcs x (by simp [hx])) (by simpa using hcons)
+    constructor
+    · simp only [List.cons_append, autoRun, hstep, hih.1]
+      simp
+    · simp only [List.cons_append, List.foldl_cons, hstep]
+      simpa using hih.2
+
+/-- The property's positive clause over a whole group of any length: from any state of the APID (idle, or an
+    unfinished group that is superseded), a FIRST packet followed by zero or more CONTINUATION packets and a LAST
+    packet with consecutive sequence counts modulo 16384 yields exactly one output, at the LAST packet, made of
+    exactly those packets in order — and the APID is idle afterwards. -/
+theorem complete_group (o : GenOpts) (hc : o.combine = true) (g0 conts : List Bytes) (first last : Bytes)
+    (hf : seqFlags first = 1) (hcs : ∀ c ∈ conts, seqFlags c = 0) (hl : seqFlags last = 2)
+    (hcons : consecutiveCounts ((first :: conts ++ [last]).map seqCount) = true) :
+    autoRun o g0 (first :: conts ++ [last]) =
+      (none, []) :: conts.map (fun _ => (none, [])) ++ [(some (first :: conts ++ [last]), [])] ∧
+    (first :: conts ++ [last]).foldl (fun st b => (autoStep o st b).1) g0 = [] := by
+  have hstep : autoStep o g0 first = ([first], none, []) := by simp [autoStep, hc, hf]
+  have h := open_group_closes o hc [first] conts last (by simp) hcs hl (by simpa using hcons)
+  constructor
+  · simp only [List.cons_append, autoRun, hstep]
+    simpa using h.1
+  · simp only [List.cons_append, List.foldl_cons, hstep]
+    simpa using h.2
+
+/-- Non-vacuity: counts 16383 → 0 → 1 (wrap-around) are consecutive. -/
+example : consecutiveCounts [16383, 0, 1] = true := by decide
+
 end Spp.C12
